@@ -1,21 +1,19 @@
-"""What MANIFEST.json claims, per property. Edited by hand as the framework grows."""
+"""What MANIFEST.json claims: one JSON file per claimed property under /verif/claims/ (category, technique,
+text, note); every property without a file is listed as not_applicable with the reason in NOT_APPLICABLE_REASONS
+(or the default 'pending' text)."""
+import glob
+import json
+import os
 
+ROOT = os.path.dirname(os.path.dirname(os.path.abspath(__file__)))
 TECH = "contract-based deductive verification (pyvc: AST->SMT VCs of the real functions, z3/cvc5)"
+CLAIMS = {}
+for f in sorted(glob.glob(os.path.join(ROOT, "claims", "C*.json"))):
+    with open(f) as fh:
+        c = json.load(fh)
+    c.setdefault("technique", TECH)
+    CLAIMS[os.path.basename(f)[:-5]] = c
 
-CLAIMS = {
-    "C03": {
-        "category": "proof",
-        "technique": TECH,
-        "text": "makeOfficialGlyphOrder is proved, for every glyph-name set and every order list (duplicates, unknown names, .notdef anywhere), to return exactly '.notdef' + first occurrences of listed names + sorted rest (loop invariant + postcondition discharged by z3 on VCs generated from the current source). The ufo2ft-side is proved for all inputs and iteration counts; fontTools' cmap/glyph-order serialisation is trusted.",
-        "note": "Trusted: Python container semantics as encoded (set/list/dict models in pyvc/models.py), `sorted` as an opaque spec function, duck-typed glyph-set protocol (keys/in). Floats as reals; termination not proved.",
-    },
-    "C04": {
-        "category": "proof",
-        "technique": TECH,
-        "text": "hhea/vhea derived fields proved against the metrics table and glyph boxes for every glyph order and advance sequence.",
-        "note": "Trusted: table attribute bags, getAttrWithFallback summary, Python container semantics.",
-    },
-}
-
-_PENDING = "contracts for this property are not yet built in this snapshot of /verif (work in progress; see DESIGN.md §3 for the plan)"
-NOT_APPLICABLE = {f"C{i:02d}": _PENDING for i in range(1, 21) if f"C{i:02d}" not in CLAIMS}
+_PENDING = "contracts for this property are not yet built in this snapshot of /verif (work in progress; see DESIGN.md section 3 for the plan)"
+NOT_APPLICABLE_REASONS = {}
+NOT_APPLICABLE = {f"C{i:02d}": NOT_APPLICABLE_REASONS.get(f"C{i:02d}", _PENDING) for i in range(1, 21) if f"C{i:02d}" not in CLAIMS}
